@@ -41,6 +41,8 @@ type catchEvent struct {
 	awaitingActions []chan IAction
 	once            sync.Once
 	satisfier       *logic.CatchEventSatisfier
+	// stopped is closed when the run loop returns: nobody drains mch any more
+	stopped chan struct{}
 }
 
 func newCatchEvent(wr *wiring, element *schema.CatchEvent) (evt *catchEvent, err error) {
@@ -51,6 +53,7 @@ func newCatchEvent(wr *wiring, element *schema.CatchEvent) (evt *catchEvent, err
 		activated:       atomic.Bool{},
 		awaitingActions: make([]chan IAction, 0),
 		satisfier:       logic.NewCatchEventSatisfier(element, wr.eventDefinitionInstanceBuilder),
+		stopped:         make(chan struct{}),
 	}
 
 	err = evt.eventEgress.RegisterEventConsumer(evt)
@@ -62,6 +65,7 @@ func newCatchEvent(wr *wiring, element *schema.CatchEvent) (evt *catchEvent, err
 
 func (evt *catchEvent) run(ctx context.Context, sender tracing.ISenderHandle) {
 	defer sender.Done()
+	defer close(evt.stopped)
 
 	for {
 		select {
@@ -104,7 +108,12 @@ func (evt *catchEvent) ConsumeEvent(ev event.IEvent) (result event.ConsumptionRe
 		result = event.Consumed
 		return
 	}
-	evt.mch <- processEventMessage{event: ev}
+	// the run loop returns when the instance's context is done: an event
+	// delivered after that is dropped instead of waiting for room in the inbox
+	select {
+	case evt.mch <- processEventMessage{event: ev}:
+	case <-evt.stopped:
+	}
 	result = event.Consumed
 	return
 }
